@@ -157,7 +157,7 @@ macro_rules! prim_newtype {
 }
 prim_newtype!(U4, U7, U14, Channel, KeyNumber, ControllerNumber);
 
-struct Stats {
+pub struct Stats {
     evals: u64,
     accepted: u64,
     rejected: u64,
@@ -240,6 +240,56 @@ where
             }
         }
     }
+}
+
+/// Autoref-specialisation probes: `(&&InProbe::<P, T>::new()).run(..)` runs the conversion
+/// check if `T: TryFrom<P>` is implemented and does nothing otherwise, so that the harness can
+/// name EVERY (source, target) pair — conversions added to the crate later are covered without
+/// touching the harness, and removed ones do not break the build.
+pub struct InProbe<P, T>(std::marker::PhantomData<(P, T)>);
+impl<P, T> InProbe<P, T> {
+    pub fn new() -> Self {
+        InProbe(std::marker::PhantomData)
+    }
+}
+pub trait InImplemented {
+    fn run(&self, mode: Mode, rng: &mut Rng, n_random: usize, rep: &mut Report, st: &mut Stats);
+}
+impl<P: Prim, T: NT + TryFrom<P>> InImplemented for &InProbe<P, T> {
+    fn run(&self, mode: Mode, rng: &mut Rng, n_random: usize, rep: &mut Report, st: &mut Stats) {
+        rep.count("conversion_impls_found_into_restricted_integers", 1);
+        conv_in::<P, T>(mode, rng, n_random, rep, st);
+    }
+}
+pub trait InMissing {
+    fn run(&self, _mode: Mode, _rng: &mut Rng, _n_random: usize, rep: &mut Report, _st: &mut Stats);
+}
+impl<P, T> InMissing for &&InProbe<P, T> {
+    fn run(&self, _mode: Mode, _rng: &mut Rng, _n_random: usize, rep: &mut Report, _st: &mut Stats) {
+        rep.count("conversion_pairs_not_implemented_by_the_crate", 1);
+    }
+}
+
+pub struct OutProbe<T, O>(std::marker::PhantomData<(T, O)>);
+impl<T, O> OutProbe<T, O> {
+    pub fn new() -> Self {
+        OutProbe(std::marker::PhantomData)
+    }
+}
+pub trait OutImplemented {
+    fn run(&self, mode: Mode, rep: &mut Report, st: &mut Stats);
+}
+impl<T: NT, O: OutPrim + From<T> + Observe> OutImplemented for &OutProbe<T, O> {
+    fn run(&self, mode: Mode, rep: &mut Report, st: &mut Stats) {
+        rep.count("conversion_impls_found_out_of_restricted_integers", 1);
+        conv_out::<T, O>(mode, rep, st);
+    }
+}
+pub trait OutMissing {
+    fn run(&self, _mode: Mode, _rep: &mut Report, _st: &mut Stats);
+}
+impl<T, O> OutMissing for &&OutProbe<T, O> {
+    fn run(&self, _mode: Mode, _rep: &mut Report, _st: &mut Stats) {}
 }
 
 /// Target side of "conversion out": value as i128-ish comparison through a widening cast.
@@ -562,7 +612,10 @@ fn display_and_order<T: NT>(mode: Mode, rng: &mut Rng, rep: &mut Report, st: &mu
 
 pub fn run(mode: Mode, cfg: &Cfg, rep: &mut Report) {
     let mut rng = Rng::derive(cfg.seed, 0xC04);
-    let nrand = cfg.size(200, 100_000, 2_000_000) as usize;
+    // the serde build is a third configuration: the conversion code is the same as in the std
+    // build, so its (secondary) quick run is lighter
+    let light = cfg.secondary && cfg!(feature = "serde") && !cfg.thorough;
+    let nrand = if light { 2_000 } else { cfg.size(200, 100_000, 2_000_000) as usize };
     let mut st = Stats {
         evals: 0,
         accepted: 0,
@@ -572,35 +625,29 @@ pub fn run(mode: Mode, cfg: &Cfg, rep: &mut Report) {
     };
     rep.rule("every implemented conversion into/out of U4, U7, U14, Channel, KeyNumber, ControllerNumber: exhaustive over 8/16-bit sources and all newtype values; boundaries, powers of two +-1, truncation traps and seeded random values for 32/64/128-bit and pointer-sized sources; T::new over the whole repr range; all strings over {0-9,+,-,space,a} up to length 4 (quick in C18 mode: 3) plus boundary/leading-zero/overlong numerals; Display, Ord/Eq on all values (all pairs for 7-bit types); non-trivial = an input whose outcome is decided by the range check (accepted in-range value, rejected out-of-range value or expected panic), counted per distinct (type, source type, input) ; every Unicode scalar value (thinned above U+3000 except digit blocks) is parsed alone and next to an ASCII digit");
 
-    macro_rules! ins {
-        ($T:ty; $($P:ty),*) => { $( conv_in::<$P, $T>(mode, &mut rng, nrand, rep, &mut st); )* };
+    // every (source, target) pair of the 12 primitive integer types and the 6 restricted types
+    macro_rules! grid {
+        ($($T:ident),*) => { $(
+            grid!(@in $T; u8, i8, u16, i16, u32, i32, u64, i64, u128, i128, usize, isize, U4, U7, U14, Channel, KeyNumber, ControllerNumber);
+            grid!(@out $T; u8, i8, u16, i16, u32, i32, u64, i64, u128, i128, usize, isize, U4, U7, U14, Channel, KeyNumber, ControllerNumber);
+        )* };
+        (@in $T:ident; $($P:ty),*) => { $(
+            if stringify!($P) != stringify!($T) {
+                (&&InProbe::<$P, $T>::new()).run(mode, &mut rng, nrand, rep, &mut st);
+            }
+        )* };
+        (@out $T:ident; $($O:ty),*) => { $(
+            if stringify!($O) != stringify!($T) {
+                (&&OutProbe::<$T, $O>::new()).run(mode, rep, &mut st);
+            }
+        )* };
     }
-    macro_rules! outs {
-        ($T:ty; $($O:ty),*) => { $( conv_out::<$T, $O>(mode, rep, &mut st); )* };
-    }
-    // --- U4
-    ins!(U4; u8, u16, i16, u32, i32, u64, i64, u128, i128, usize, isize, U14, U7, Channel);
-    outs!(U4; u8, i8, u16, i16, u32, i32, u64, i64, u128, i128, usize, isize, U7, U14, Channel);
-    // --- U7
-    ins!(U7; u8, u16, i16, u32, i32, u64, i64, u128, i128, usize, isize, U14, U4, KeyNumber, ControllerNumber);
-    outs!(U7; u8, i8, u16, i16, u32, i32, u64, i64, u128, i128, usize, isize, U14, KeyNumber, ControllerNumber);
-    // --- U14
-    ins!(U14; u8, i8, u16, u32, i32, u64, i64, u128, i128, usize, U4, U7);
-    outs!(U14; u16, i16, u32, i32, u64, i64, u128, i128, usize, isize);
-    // --- Channel
-    ins!(Channel; u8, u16, i16, u32, i32, u64, i64, u128, i128, usize, isize, U4);
-    outs!(Channel; u8, i8, u16, i16, u32, i32, u64, i64, u128, i128, usize, isize, U4);
-    // --- KeyNumber
-    ins!(KeyNumber; u8, u16, i16, u32, i32, u64, i64, u128, i128, usize, isize, U7);
-    outs!(KeyNumber; u8, i8, u16, i16, u32, i32, u64, i64, u128, i128, usize, isize, U7);
-    // --- ControllerNumber
-    ins!(ControllerNumber; u8, u16, i16, u32, i32, u64, i64, u128, i128, usize, isize, U7);
-    outs!(ControllerNumber; u8, i8, u16, i16, u32, i32, u64, i64, u128, i128, usize, isize, U7);
+    grid!(U4, U7, U14, Channel, KeyNumber, ControllerNumber);
 
     macro_rules! per_type {
         ($($T:ty),*) => { $(
             ctor_and_consts::<$T>(mode, rep, &mut st);
-            let n = parsing::<$T>(mode, rep, &mut st, !(cfg.as_c18 && !cfg.thorough));
+            let n = parsing::<$T>(mode, rep, &mut st, !(cfg.as_c18 && !cfg.thorough) && !light);
             rep.count("strings_parsed", n);
             display_and_order::<$T>(mode, &mut rng, rep, &mut st);
         )* };
@@ -618,6 +665,17 @@ pub fn run(mode: Mode, cfg: &Cfg, rep: &mut Report) {
             sub.prop = id.to_string();
             if super::run_prop(id, &sub, &mut r) {
                 ran.push(id);
+                rep.count("range_observer_sub_workload_evaluations", r.evaluations);
+            }
+        }
+        #[cfg(feature = "serde")]
+        {
+            // serde configuration: every restricted integer produced by deserialization passes the
+            // range observer as well (Range hits inside the C19 workload become C04 violations)
+            let mut r = Report::new();
+            sub.prop = "C19".to_string();
+            if super::run_prop("C19", &sub, &mut r) {
+                ran.push("C19 (serde build)");
                 rep.count("range_observer_sub_workload_evaluations", r.evaluations);
             }
         }
